@@ -194,6 +194,19 @@ def run(v) -> None:
             gulp = rng.choice([1, 2, 3, 5, 7, rng.randrange(1, n + 2), nsamps, nsamps + 3])
             calls += calls_for(n, c, [gulp], [(start, nsamps)], ops)
         add_spec(n, c, nbits, rng.choice([1, 2, 3]), rng.choice(["identity", "random", "runs"]), calls)
+    # at scale: files longer than the kernels' internal tiling (1024 .. 16384 samples), gulps around the default 16384
+    for (n, c, nbits) in ([(2500, 4, 8)] if quick else [(2500, 4, 8), (20000, 2, 8), (3001, 4, 2), (5000, 2, 32)]):
+        big = []
+        for (start, nsamps) in [(0, n), (7, n - 7), (n // 3, n // 2 + 1)]:
+            for gulp in (16384, 1000, n + 1):
+                for op in ("collapse", "bandpass", "chan", "dedisp"):
+                    call = {"op": op, "gulp": gulp, "start": start, "nsamps": nsamps, "dflt": start + nsamps == n and gulp == 1000}
+                    if op == "dedisp":
+                        call["dm"] = 0.2
+                    if op == "chan":
+                        call["ch"] = (start + gulp) % c
+                    big.append(call)
+        add_spec(n, c, nbits, 2, "random", big)
     traces = pool.pmap(job, specs, workers=14)
     # dedispersion calls whose max delay >= nsamps are outside the property: drop them (count as precondition-false)
     skipped = 0
